@@ -1,4 +1,4 @@
-INIT InitSnapLimitThorough
+INIT InitSnapLimitThoroughA
 NEXT Next
 CONSTANTS
   MaxItems = 1024
